@@ -21,7 +21,7 @@ def prop(pid, **kw):
 
 
 prop("C02",
-     units=["hist", "queue", "arms", "record", "cutcf"],
+     units=["hist", "queue", "arms", "record", "cutcf", "order"],
      scans=["history-writers"],
      level="proof",
      claim="History::{push,undo,redo} implement the cursor-over-a-list semantics of the statement, for all stacks",
@@ -54,7 +54,7 @@ prop("C11",
 
 
 prop("C03",
-     units=["queue", "arms", "record", "cutcf"],
+     units=["queue", "arms", "record", "cutcf", "order"],
      scans=["history-writers"],
      level="proof",
      claim="protocol part: the queue holds exactly the (tag, list) pairs in the order the sender applied them; flush returns enc(queue) and empties it; "
@@ -172,14 +172,14 @@ prop("C23",
 
 
 prop("C01",
-     units=["hist", "queue", "arms", "record", "cutcf"],
+     units=["hist", "queue", "arms", "record", "cutcf", "order"],
      scans=["history-writers"],
      level="proof",
      claim="undo hands back exactly the most recent not-yet-undone list (History), UserModel::undo applies it through apply_undo_diff_list and queues it, and for the "
            "variants under contract each undo arm performs the inverse engine call of the recorded operation with the recorded OLD value / inverse position "
            "(setter class, insert<->delete rows/columns, move rows/columns back, defined names)",
      assumptions=["A-apply / A-clone as in C02", "A-functional: engine state is a function of the sequence of engine calls; A-setget: setting an attribute back to the value read before the operation restores it",
-                  "the order in which apply_undo_diff_list walks the list (.rev()) is not under contract"],
+                  "unit order: the traversal (backwards for undo, forwards for redo, each diff once) is proved with the loop body abstracted to one logged call (D6)"],
      residual="diffs whose inverse is a re-execution through text (SetCellValue, paste, autofill, borders, named styles, CF, links, DeleteRows/Columns/Sheet data restore); the recording side of most operations")
 
 
